@@ -29,7 +29,7 @@ type Tick struct {
 }
 
 type Script struct {
-	Side       string `json:"side"` // server | client | client-fallback
+	Side       string `json:"side"` // server | server-restored (connected with ServerSessionOptions.State of an initialized session) | client | client-fallback
 	IntervalNS int64  `json:"interval_ns"`
 	Threshold  int    `json:"threshold"`
 	Pattern    []Tick `json:"pattern"`
@@ -38,7 +38,7 @@ type Script struct {
 
 func genScript(rt *rapid.T) Script {
 	var s Script
-	s.Side = rapid.SampledFrom([]string{"server", "client", "client-fallback"}).Draw(rt, "side")
+	s.Side = rapid.SampledFrom([]string{"server", "server-restored", "client", "client-fallback"}).Draw(rt, "side")
 	s.IntervalNS = int64(rapid.SampledFrom([]time.Duration{2 * time.Millisecond, 3 * time.Millisecond, 10 * time.Millisecond, time.Second, 30 * time.Second, time.Hour, 7 * time.Nanosecond * 1000}).Draw(rt, "interval"))
 	s.Threshold = rapid.SampledFrom([]int{-1, 0, 1, 2, 2, 3, 3, 5}).Draw(rt, "threshold")
 	half := s.IntervalNS / 2
@@ -90,9 +90,16 @@ func runInBubble(s Script) (res vt.Result) {
 	rejectNext := false
 	sc.OnWrite = nil
 	switch s.Side {
-	case "server":
+	case "server", "server-restored":
 		server := mcp.NewServer(&mcp.Implementation{Name: "s", Version: "1"}, &mcp.ServerOptions{KeepAlive: I, KeepAliveFailureThreshold: s.Threshold})
-		ss, err := server.Connect(context.Background(), sc.Transport(), nil)
+		var opts *mcp.ServerSessionOptions
+		if s.Side == "server-restored" {
+			opts = &mcp.ServerSessionOptions{State: &mcp.ServerSessionState{
+				InitializeParams:  &mcp.InitializeParams{ProtocolVersion: "2025-06-18", ClientInfo: &mcp.Implementation{Name: "restored", Version: "1"}, Capabilities: &mcp.ClientCapabilities{}},
+				InitializedParams: &mcp.InitializedParams{},
+			}}
+		}
+		ss, err := server.Connect(context.Background(), sc.Transport(), opts)
 		if err != nil {
 			res.Failf("setup: %v", err)
 			return
